@@ -835,6 +835,16 @@ class Interp:
     def e_GeneratorExp(self, e, env, cls):
         return self._comp(e, env, cls)
 
+    def e_SetComp(self, e, env, cls):
+        r = self._comp(e, env, cls)
+        if isinstance(r, list):
+            out = []
+            for x in r:
+                if not any(self._eq(x, y) for y in out):
+                    out.append(x)
+            return out
+        return r
+
     def _comp(self, e, env, cls):
         out = []
 
@@ -1214,7 +1224,15 @@ def _b_zip(i, a, k, t):
 
 
 def _b_sorted(i, a, k, t):
-    return Opaque(f"sorted({to_text(a[0])})") if isinstance(a[0], Opaque) else list(a[0])
+    if isinstance(a[0], Opaque):
+        return Opaque(f"sorted({to_text(a[0])})")
+    vals = list(a[0])
+    if k:
+        i.events.append(("sorted-with-key", vals))
+        return vals
+    if all(isinstance(x, (str, int)) for x in vals):
+        return sorted(vals)
+    return vals
 
 
 def _b_ceil(i, a, k, t):
